@@ -25,7 +25,7 @@ import traceback
 VERIF_DIR = os.path.dirname(os.path.dirname(os.path.abspath(__file__)))
 REPO = os.path.abspath(os.environ.get("VERIF_REPO", "/repo"))
 FINDINGS_FILE = os.path.join(VERIF_DIR, "KNOWN_FINDINGS.txt")
-WATCHDOG_S = 30
+WATCHDOG_S = 120
 
 
 class Violation(Exception):
